@@ -450,29 +450,41 @@ fn run_threads(sc: &Value) -> Value {
     std::fs::create_dir_all(&dir).unwrap();
     let msg_a: String = "A".repeat(900);
     let msg_b: String = "B".repeat(300);
-    let line = |m: &str| {
-        format!(
-            "ebpfProgramStatus - Status unknown.\r\nkeyLatchStatus - {}\r\nproxyListenerStatus - Status unknown.\r\n",
-            m
-        )
-    };
-    let full_a = line(&msg_a);
-    let full_b = line(&msg_b);
     let stop = Arc::new(AtomicBool::new(false));
     let reads = Arc::new(AtomicU64::new(0));
     let anomalies = Arc::new(AtomicU64::new(0));
     let example = Arc::new(std::sync::Mutex::new(String::new()));
-    let reader = {
-        let (stop, reads, anomalies, example) = (stop.clone(), reads.clone(), anomalies.clone(), example.clone());
-        let (full_a, full_b) = (full_a.clone(), full_b.clone());
-        let tag = dir.join("status.tag");
-        std::thread::spawn(move || {
-            while !stop.load(Ordering::Relaxed) {
-                if let Ok(b) = std::fs::read(&tag) {
-                    reads.fetch_add(1, Ordering::Relaxed);
-                    let s = String::from_utf8_lossy(&b).to_string();
-                    if s != full_a && s != full_b {
-                        if anomalies.fetch_add(1, Ordering::Relaxed) == 0 {
+    let rt = tokio::runtime::Builder::new_multi_thread()
+        .worker_threads(4)
+        .enable_all()
+        .build()
+        .unwrap();
+    let tag = dir.join("status.tag");
+    let (full_a, full_b) = rt.block_on(async {
+        let st = SharedState::start_all();
+        let prov = st.get_provision_shared_state();
+        let ags = st.get_agent_status_shared_state();
+        prov.set_event_log_threads_initialized().await.unwrap();
+        // calibration: what ONE writer alone publishes for each of the two status messages
+        let mut fulls = Vec::new();
+        for m in [&msg_a, &msg_b] {
+            let _ = ags
+                .set_module_status_message(m.clone(), AgentStatusModule::KeyKeeper)
+                .await;
+            provision::provision_timeup(Some(dir.clone()), prov.clone(), ags.clone()).await;
+            fulls.push(String::from_utf8_lossy(&std::fs::read(&tag).unwrap_or_default()).to_string());
+        }
+        let (full_a, full_b) = (fulls[0].clone(), fulls[1].clone());
+        let reader = {
+            let (stop, reads, anomalies, example) = (stop.clone(), reads.clone(), anomalies.clone(), example.clone());
+            let (full_a, full_b) = (full_a.clone(), full_b.clone());
+            let tag = tag.clone();
+            std::thread::spawn(move || {
+                while !stop.load(Ordering::Relaxed) {
+                    if let Ok(b) = std::fs::read(&tag) {
+                        reads.fetch_add(1, Ordering::Relaxed);
+                        let s = String::from_utf8_lossy(&b).to_string();
+                        if s != full_a && s != full_b && anomalies.fetch_add(1, Ordering::Relaxed) == 0 {
                             let kind = if s.is_empty() {
                                 "empty".to_string()
                             } else if full_a.starts_with(&s) || full_b.starts_with(&s) {
@@ -485,22 +497,8 @@ fn run_threads(sc: &Value) -> Value {
                         }
                     }
                 }
-            }
-        })
-    };
-    let rt = tokio::runtime::Builder::new_multi_thread()
-        .worker_threads(4)
-        .enable_all()
-        .build()
-        .unwrap();
-    rt.block_on(async {
-        let st = SharedState::start_all();
-        let prov = st.get_provision_shared_state();
-        let ags = st.get_agent_status_shared_state();
-        prov.set_event_log_threads_initialized().await.unwrap();
-        let _ = ags
-            .set_module_status_message(msg_b.clone(), AgentStatusModule::KeyKeeper)
-            .await;
+            })
+        };
         let mut hs = Vec::new();
         for _w in 0..writers {
             let (prov, ags, dir) = (prov.clone(), ags.clone(), dir.clone());
@@ -517,7 +515,6 @@ fn run_threads(sc: &Value) -> Value {
                 let mut i = 0u64;
                 while !stop.load(Ordering::Relaxed) {
                     let m = if i % 2 == 0 { a.clone() } else { b.clone() };
-                    // the actor message only (set_module_status_message would also log an event)
                     let _ = ags.set_module_status_message(m, AgentStatusModule::KeyKeeper).await;
                     i += 1;
                     tokio::task::yield_now().await;
@@ -529,12 +526,14 @@ fn run_threads(sc: &Value) -> Value {
         }
         stop.store(true, Ordering::Relaxed);
         let _ = toggler.await;
+        let _ = reader.join();
+        (full_a, full_b)
     });
-    let _ = reader.join();
     let ex = example.lock().unwrap().clone();
     let _ = std::fs::remove_dir_all(&dir);
     json!({"iters": iters, "writers": writers, "reads": reads.load(Ordering::Relaxed),
-           "anomalies": anomalies.load(Ordering::Relaxed), "example": ex})
+           "anomalies": anomalies.load(Ordering::Relaxed), "example": ex,
+           "complete_a": full_a, "complete_b": full_b})
 }
 
 // ------------------------------------------------------------------------------------------
